@@ -237,7 +237,7 @@ func (h *ordH) runFanScript(from int, css []*ClientSession, sss []*ServerSession
 			switch m.kind {
 			case 'n', 'c':
 				h.issue(context.Background(), i, cs, ss, client)
-			case 'g', 'r':
+			case 'g', 'r', 'x':
 				wg.Add(1)
 				go func() {
 					defer wg.Done()
@@ -575,6 +575,19 @@ func ordRunFanCase(t *testing.T, out *verifOut, id string, c *ordCase) {
 			if overlap[i] {
 				tags = append(tags, "overlapped")
 			}
+			if m.kind == 'x' {
+				switch {
+				case e == "0":
+					tags = append(tags, "cancel-too-late")
+				case cnt[i] == 0:
+					tags = append(tags, "cancelled-unhandled")
+				default:
+					tags = append(tags, "cancelled-running")
+				}
+				if c.ck > 0 {
+					tags = append(tags, "cancel-goroutine-late")
+				}
+			}
 			if m.cb {
 				tags = append(tags, "callback", h.cbres[i])
 			}
@@ -730,7 +743,10 @@ func ordGenFan(rng *rand.Rand, tr string, maxLen int) *ordCase {
 			}
 		}
 		if m.kind == 0 {
-			m.kind = []byte{'c', 'c', 'g', 'g', 'r'}[rng.Intn(5)]
+			m.kind = []byte{'c', 'c', 'g', 'g', 'r', 'c', 'g', 'x'}[rng.Intn(8)]
+			if m.kind == 'x' {
+				m.cx = []int{0, 1 + rng.Intn(5), 1 + rng.Intn(30), 1 + rng.Intn(2000)}[rng.Intn(4)]
+			}
 		}
 		if m.kind == 'n' && rng.Intn(3) == 0 {
 			m.cb = true
@@ -739,6 +755,9 @@ func ordGenFan(rng *rand.Rand, tr string, maxLen int) *ordCase {
 			}
 		}
 		c.msgs = append(c.msgs, m)
+	}
+	if rng.Intn(2) == 0 {
+		c.ck = 1 + rng.Intn(25) // the receiving connection's Cancel goroutine is scheduled late
 	}
 	return c
 }
